@@ -21,7 +21,7 @@ RULE = ("quick: every (candidate c over {0..n-1}, input ranking r in R(n)) with 
         "(c, r) pair or distinct (dataset, candidate, scheme) triple.")
 EXHAUSTIVE = {"quick": False, "thorough": False}
 SCOPE = {"quick": "all (c,r) pairs n<=4 (11.6k) + superset candidates + 300 sampled datasets",
-         "thorough": "all (c,r) pairs n<=5 (597k) + superset candidates + 5000 sampled datasets"}
+         "thorough": "all (c,r) pairs n<=5 (597k) + superset candidates + 30000 sampled datasets"}
 CHUNK = 2
 
 
@@ -38,7 +38,7 @@ def gen_cases(tier, seed):
         yield {"kind": "sequence", "seed": seed * 1000 + i, "steps": 25,
                "scheme": D.SCHEMES_QUICK[i % len(D.SCHEMES_QUICK)]}
     rng = random.Random(seed * 7919 + 1)
-    count = 300 if tier == "quick" else 5000
+    count = 300 if tier == "quick" else 30000
     schemes = D.SCHEMES_QUICK if tier == "quick" else D.SCHEMES_ALL
     kinds = list(D.NAME_KINDS)
     for i in range(count):
